@@ -22,7 +22,7 @@ type C12Case struct {
 
 var specC12 = report.Spec{Property: "C12", Check: "C12",
 	Rule: "source GeoPackages written by the harness (go-spatial gpkg + SQL): 1-3 feature tables, integer primary key plus 0-4 attribute columns (INTEGER, REAL, TEXT, nullable or NOT NULL), geometry column at a random position, geometry type from the seven supported names plus GEOMETRY, SRS in {4326, 3857, a custom 28992 definition}; " +
-		"page size p in 1..40 and feature count n with the classes n = 0, k*p, k*p+1, k*p-1 forced (n <= 3p+1), empty geometries included (first in a page, alone in the last page). Subject: SourceGeopackage.GetTableInfo -> TargetGeopackage.Init/CreateTables/WriteFeatures fed from a channel by the harness, table after table like main.go. " +
+		"page size p in 1..40 and feature count n with the classes n = 0, k*p, k*p+1, k*p-1 forced (n <= 3p+1), empty geometries included (first in a page, alone in the last page). Subject: SourceGeopackage.GetTableInfo -> TargetGeopackage.Init/CreateTables/WriteFeatures fed from a channel by the harness, table after table like main.go; and a second route in which the same features are stored in the source and copied by SourceGeopackage.ReadFeatures -> WriteFeatures. " +
 		"Oracle (read back with database/sql): rows in rowid order equal the fed features (key, attributes by value, geometry by decoded deep equality); the R-tree table holds exactly the keys of the rows with a non-empty geometry; gpkg_contents min/max = bounding box of all non-empty fed geometries (NULL when none), exact; " +
 		"gpkg_geometry_columns row, PRAGMA table_info and the spatial reference system row equal the source's. Non-trivial: some table has n > p and n mod p in {0, 1, p-1}. Distinct by case content.",
 	Assumptions: []string{"the verif-tagged stub driver's ST_IsEmpty/ST_MinX.. stand in for SpatiaLite's (same semantics on the generated geometries)", "geometry blobs are non-NULL, page size >= 1, columns have no default values (the reader's documented input domain)"}}
@@ -130,11 +130,44 @@ func oracleC12(c C12Case) (o report.Outcome) {
 		o.Failf([]string{"panic"}, "writing the target panicked: %v", pan)
 		return o
 	}
+	// second route: the same features stored in a source GeoPackage and copied by the tool's own reader into a second target
+	src2, tgt2 := filepath.Join(dir, "src-with-rows.gpkg"), filepath.Join(dir, "tgt-copy.gpkg")
+	if err := writeSource(src2, c.Tables); err != nil {
+		panic(fmt.Errorf("harness: cannot write the source GeoPackage: %w", err))
+	}
+	func() {
+		defer func() { pan = recover() }()
+		s := gpkg.SourceGeopackage{}
+		s.Init(src2)
+		tables := s.GetTableInfo()
+		tg := gpkg.TargetGeopackage{}
+		tg.Init(tgt2, c.PageSize)
+		if err := tg.CreateTables(tables); err != nil {
+			panic(err)
+		}
+		for _, table := range tables {
+			s.Table, tg.Table = table, table
+			ch := make(chan processing.Feature)
+			go s.ReadFeatures(ch)
+			tg.WriteFeatures(ch)
+		}
+		tg.Close()
+		s.Close()
+	}()
+	if pan != nil {
+		o.Failf([]string{"panic"}, "copying the source through ReadFeatures/WriteFeatures panicked: %v", pan)
+		return o
+	}
 	sdb, err := openDB(src)
 	if err != nil {
 		panic(err)
 	}
 	defer sdb.Close()
+	cdb, err := openDB(tgt2)
+	if err != nil {
+		panic(err)
+	}
+	defer cdb.Close()
 	tdb, err := openDB(tgt)
 	if err != nil {
 		panic(err)
@@ -179,6 +212,15 @@ func oracleC12(c C12Case) (o report.Outcome) {
 		}
 		if why := compareTable(rt, t, want, &st); why != "" {
 			o.Failf([]string{"table"}, "page size %d, %d features: %s", c.PageSize, len(t.Rows), why)
+			return o
+		}
+		ct, err := readBack(cdb, t)
+		if err != nil {
+			o.Failf([]string{"readback"}, "table %s cannot be read back from the copied target: %v", t.Name, err)
+			return o
+		}
+		if why := compareTable(ct, t, want, &st); why != "" {
+			o.Failf([]string{"table", "copy"}, "source copied by ReadFeatures -> WriteFeatures, page size %d, %d features: %s", c.PageSize, len(t.Rows), why)
 			return o
 		}
 	}
